@@ -18,6 +18,8 @@ func init() {
 
 type c19Req struct {
 	Spec     int    `json:"spec"`
+	Shape    int    `json:"shape"`
+	CTParam  string `json:"content_type_parameter,omitempty"`
 	Method   string `json:"method"`
 	Path     string `json:"path"`
 	Tok      string `json:"tok"`
@@ -50,7 +52,58 @@ type c19Scen struct {
 	Order         []int    `json:"sequential_order"`
 	Clients       [][]int  `json:"clients"`
 	Gone          [][]int  `json:"client_gone_at_write"` // per client and request: k>0 = the writer fails from write #k-1 on
-	entry         int
+	// Age: the long-lived server. The sequential history is continued (cycling through sequential_order)
+	// until Age requests have been answered on the one container, and the container of the concurrent
+	// phase answers as many before its clients start: "the first or the thousandth".
+	Age   int `json:"aged_by_requests,omitempty"`
+	entry int
+}
+
+var c19Shapes = []struct{ m, p string }{
+	{"GET", "/u/%s"}, {"GET", "/u/%s/sub/k%s"}, {"POST", "/u/%s"}, {"GET", "/v/t%s/items/%s"}, {"PUT", "/u/%s"},
+	{"GET", "/nowhere/%s"}, {"GET", "/u/doc/%s.json"}, {"GET", "/u/num/x%sy"}, {"UNLOCK", "/many/%s"}, {"COPY", "/many/%s"}, {"OPTIONS", "/u/%s"}, {"OPTIONS", "/v/t%s/items/%s"}, {"DELETE", "/v/t%s/items/%s"},
+	{"GET", "/s/plain"}, {"GET", "/s/other"}, {"GET", "/s/stream"}, {"GET", "/s/raw"},
+	// URL forms a real client can send: an escaped slash inside a segment, an empty segment, a trailing slash, HEAD
+	{"GET", "/u/%s%%2Fsub/k%s"}, {"GET", "/u//%s"}, {"GET", "/u/%s/"}, {"HEAD", "/u/%s"}, {"HEAD", "/many/%s"}, {"POST", "/x/form/%s"}, {"POST", "/x/nct/%s"}, {"GET", "/x/err/%s"}, {"POST", "/x/job/%s:cancel"}, {"GET", "/x/job/%s:cancel"}, {"GET", "/x/job/%s"},
+}
+
+func c19Path(shape int, tok string) string {
+	sh := c19Shapes[shape]
+	p := fmt.Sprintf(sh.p, tok, tok)
+	switch strings.Count(sh.p, "%s") {
+	case 1:
+		p = fmt.Sprintf(sh.p, tok)
+	case 0:
+		p = sh.p
+	}
+	return p + "?q=" + tok
+}
+
+// noise: the same kind of request from another client, every input spelled in a way never seen before
+// (token in path and query, parameters on Accept and Content-Type, an unknown coding beside the accepted
+// ones, another origin). Its answer is not judged; what it leaves behind must not show anywhere.
+func (r c19Req) noise(n int) c19Req {
+	r.Tok = fmt.Sprintf("N%dx", n)
+	r.Path = c19Path(r.Shape, r.Tok)
+	switch {
+	case r.Accept == "*/*":
+		r.Accept = fmt.Sprintf("*/*;q=0.%d", n+1)
+	case r.Accept != "":
+		r.Accept = fmt.Sprintf("%s; v=%d", r.Accept, n)
+	case n%3 == 0:
+		r.Accept = fmt.Sprintf("application/json; v=%d", n)
+	}
+	if r.AE != "" {
+		r.AE = fmt.Sprintf("%s, x-n%d", r.AE, n)
+	}
+	if r.Body && !r.Form {
+		r.CTParam = fmt.Sprintf("; v=%d", n)
+	}
+	if r.Origin != "" && n%2 == 0 {
+		r.Origin = fmt.Sprintf("http://n%d.example", n)
+	}
+	r.CancelRd = 0
+	return r
 }
 
 func genC19(x *Ctx) *c19Scen {
@@ -73,25 +126,12 @@ func genC19(x *Ctx) *c19Scen {
 		maxSpecs = 8
 		maxTotal = 40
 	}
-	shapes := []struct{ m, p string }{
-		{"GET", "/u/%s"}, {"GET", "/u/%s/sub/k%s"}, {"POST", "/u/%s"}, {"GET", "/v/t%s/items/%s"}, {"PUT", "/u/%s"},
-		{"GET", "/nowhere/%s"}, {"GET", "/u/doc/%s.json"}, {"GET", "/u/num/x%sy"}, {"UNLOCK", "/many/%s"}, {"COPY", "/many/%s"}, {"OPTIONS", "/u/%s"}, {"OPTIONS", "/v/t%s/items/%s"}, {"DELETE", "/v/t%s/items/%s"},
-		{"GET", "/s/plain"}, {"GET", "/s/other"}, {"GET", "/s/stream"}, {"GET", "/s/raw"},
-		// URL forms a real client can send: an escaped slash inside a segment, an empty segment, a trailing slash, HEAD
-		{"GET", "/u/%s%%2Fsub/k%s"}, {"GET", "/u//%s"}, {"GET", "/u/%s/"}, {"HEAD", "/u/%s"}, {"HEAD", "/many/%s"}, {"POST", "/x/form/%s"}, {"POST", "/x/nct/%s"}, {"GET", "/x/err/%s"}, {"POST", "/x/job/%s:cancel"}, {"GET", "/x/job/%s:cancel"}, {"GET", "/x/job/%s"},
-	}
 	tp.Repeat(2, maxSpecs, 650, func(i int) {
-		sh := shapes[tp.G(len(shapes))]
+		shape := tp.G(len(c19Shapes))
+		sh := c19Shapes[shape]
 		tok := fmt.Sprintf("T%dx", i+1)
-		r := c19Req{Spec: i, Method: sh.m, Tok: tok}
-		r.Path = fmt.Sprintf(sh.p, tok, tok)
-		switch strings.Count(sh.p, "%s") {
-		case 1:
-			r.Path = fmt.Sprintf(sh.p, tok)
-		case 0:
-			r.Path = sh.p
-		}
-		r.Path += "?q=" + tok
+		r := c19Req{Spec: i, Shape: shape, Method: sh.m, Tok: tok}
+		r.Path = c19Path(shape, tok)
 		if tp.Chance(500) {
 			r.Origin = []string{"http://good.example", "http://evil.example", "HTTP://GOOD.example"}[tp.G(3)]
 		}
@@ -136,6 +176,13 @@ func genC19(x *Ctx) *c19Scen {
 		}
 		sc.Gone[c] = append(sc.Gone[c], gone)
 	})
+	if tp.Chance(15) {
+		ages := []int{60, 300, 1100}
+		if x.Thorough() {
+			ages = append(ages, 3100)
+		}
+		sc.Age = ages[tp.G(len(ages))]
+	}
 	return sc
 }
 
@@ -342,7 +389,7 @@ func (r *c19Req) serveGone(c *restful.Container, entry int, t *sim.Task, id int,
 	}
 	var hr = NewReq(r.Method, r.Path, hdr, nil, 0, id)
 	if r.Body {
-		hdr["Content-Type"] = "application/json"
+		hdr["Content-Type"] = "application/json" + r.CTParam
 		data := []byte(fmt.Sprintf(`{"Tok":"%s","Pad":"%s"}`, r.Tok, sim.PayloadText(r.Tok, 300)))
 		if r.Form {
 			hdr["Content-Type"] = "application/x-www-form-urlencoded; charset=utf-8"
@@ -428,8 +475,30 @@ func runC19(x *Ctx) {
 			return
 		}
 	}
+	for pos := len(sc.Order); pos < sc.Age; pos++ {
+		sp := sc.Order[pos%len(sc.Order)]
+		nz := sc.Specs[sc.Order[(7*pos+3)%len(sc.Order)]].noise(pos)
+		nz.serve(cs, sc.entry, nil, 50000+pos)
+		if got := sc.Specs[sp].serve(cs, sc.entry, nil, 100+pos); got != ref[sp] {
+			x.Violate("history-dependent", "long sequential history (%v repeated), request number %d on this container: %s %s answered\n  %s\nalone on a fresh container (tracing flipped) it is answered\n  %s", sc.Order, pos+1, sc.Specs[sp].Method, sc.Specs[sp].Path, got, ref[sp])
+			return
+		}
+	}
 	// (P) all on one container, on concurrent client tasks
 	cp := c19BuildH(sc, true)
+	for pos := 0; pos < sc.Age; pos++ {
+		sp := sc.Order[pos%len(sc.Order)]
+		nz := sc.Specs[sc.Order[(7*pos+3)%len(sc.Order)]].noise(sc.Age + pos)
+		nz.serve(cp, sc.entry, nil, 50000+pos)
+		if got := sc.Specs[sp].serve(cp, sc.entry, nil, 100+pos); got != ref[sp] {
+			x.Violate("history-dependent", "request number %d on the container of the concurrent phase (before its clients start): %s %s answered\n  %s\nalone on a fresh container (tracing flipped) it is answered\n  %s", pos+1, sc.Specs[sp].Method, sc.Specs[sp].Path, got, ref[sp])
+			return
+		}
+	}
+	if sc.Age > 0 {
+		x.Count("reach:aged-container")
+		x.CountN("aging-requests", 2*sc.Age)
+	}
 	got := make([][]string, len(sc.Clients))
 	for ci, cl := range sc.Clients {
 		ci, cl := ci, cl
